@@ -116,7 +116,8 @@ def cli_cases(res, drv, tier):
         m = drv.call({"op": "mpi.generate", "vendor": "nordicsemi.com", "cls": "cls", "address": n if which == "address" else 0x1000,
                       "size": n if which == "size" else 48, "dp": False, "iu": False, "sv": None})
         if rc != 0 or text is None:
-            if "ok" in m:
+            a_, s_ = (n if which == "address" else 0x1000), (n if which == "size" else 48)
+            if "ok" in m and a_ + s_ <= 2 ** 32:        # a record that ends beyond the 32-bit address space cannot be written as Intel-HEX
                 res.spec_failures.append({"cli": "mpi generate", "argument": [which, sp], "what": f"the command line refused {which} = {sp} (exit {rc})", "log": log[-300:]})
             continue
         img = drv.call({"op": "ihex.read", "text": text})
